@@ -34,6 +34,11 @@ class DictDB:
     def get_siteinfo(self):
         return self.siteinfo
 
+    def select(self, start, end):
+        """titles between start and end (used by the <pages> tag)"""
+        start, end = (x.lower().replace(" ", "_") for x in (start, end))
+        return sorted(k for k in self.data_dict if start <= k <= end)
+
 
 def expand_str(input_string, expected=None, wikidb=None, pagename="thispage"):
     """debug function. expand templates in string s"""
